@@ -254,6 +254,7 @@ func (c *collection) addNewIndex(ctx context.Context, desc client.IndexDescripti
 
 	err = c.indexExistingDocs(ctx, colIndex)
 	if err != nil {
+		c.indexes = c.indexes[:len(c.indexes)-1]
 		removeErr := colIndex.RemoveAll(ctx)
 		return nil, errors.Join(err, removeErr)
 	}
